@@ -1,5 +1,5 @@
 (* C17 — WebSocket frames round-trip exactly, whatever the segmentation or fragmentation.
-   Only statements here; proofs live in Proofs/WebSocketP.v.
+   Only statements here; proofs live in Proofs/WebSocketP.v and Proofs/WebSocketE2EP.v.
 
    Model/WebSocket.v is the codec (as repaired by fixes/C17_*.patch): [send] = the write handler,
    [recv] = one read event through _parse_messages plus the close handler, [recv_all] = a sequence of
@@ -22,7 +22,7 @@
      close_reply cs n = [] if the close frame was already sent, else [rfc_frame true 8 (okey n) []]
      masked_as b w    = the mask bit (bit 7 of the second byte) of the written frame w is b *)
 From Coq Require Import List NArith Bool.
-From Circ Require Import Lib.Obs Model.WebSocket Proofs.WebSocketP.
+From Circ Require Import Lib.Obs Model.WebSocket Proofs.WebSocketP Proofs.WebSocketE2EP.
 Import ListNotations.
 Open Scope N_scope.
 
@@ -173,6 +173,22 @@ Theorem C17_never_raises : forall (k4 : nat -> key4) (client : bool) s c,
 Proof. exact recv_total. Qed.
 Print Assumptions C17_never_raises.
 
+(* ---- end to end, endpoint A -> endpoint B: for every sequence of messages written through A's codec
+   (client or server, any key source, any state in which A has not sent close) the writes all succeed with one
+   frame per message, and those frames, concatenated and cut into reads in any way, are delivered by B's codec
+   (client or server, clean state) as exactly those messages, in order; B writes nothing, draws no key, holds
+   nothing back.  [send_all] (Proofs/WebSocketE2EP.v) threads [send] through the message list. *)
+Theorem C17_end_to_end : forall (ka kb : nat -> key4) (ca cb : bool) (sa : st) (nb : nat)
+    (ms : list msg) (chunks : list (list N)),
+  csent sa = false -> Forall (fun m => wf_len (snd m)) ms ->
+  exists sa' frames,
+    send_all (keyf ka) ca sa ms = ROk (sa', frames) /\
+    length frames = length ms /\
+    (concat chunks = concat frames ->
+     recv_all (keyf kb) cb (clean nb) chunks = ROk (clean nb, mkO ms [] 0)).
+Proof. exact end_to_end. Qed.
+Print Assumptions C17_end_to_end.
+
 (* ---- non-vacuity *)
 Definition ex_k4 (n : nat) : key4 := (N.of_nat n + 1, 2, 3, 4).
 
@@ -255,3 +271,14 @@ Example C17_ex_dispatcher :
   | _ => []
   end = [(1%nat, []); (1%nat, []); (2%nat, []); (1%nat, []); (2%nat, [(true, [98])]); (1%nat, [(true, [99])]); (1%nat, []); (1%nat, [])].
 Proof. vm_compute. reflexivity. Qed.
+
+(* end to end: a client writes "hi" (text) and a 126-byte binary message; the server reads the bytes one at a time *)
+Example C17_ex_end_to_end :
+  match send_all (keyf ex_k4) true (clean 0) [(true, [104; 105]); (false, rep 126 [7])] with
+  | ROk (sa, frames) =>
+      nk (ps sa) = 2%nat /\
+      recv_all (keyf ex_k4) false (clean 5) (map (fun b => [b]) (concat frames))
+      = ROk (clean 5, mkO [(true, [104; 105]); (false, rep 126 [7])] [] 0)
+  | _ => False
+  end.
+Proof. vm_compute. split; reflexivity. Qed.
